@@ -70,7 +70,11 @@ NUM = {"measures": ["mean", "sum", "stddev"], "valid_counts": True}
 
 BASES = {
     # name: schema, weights, nums, quickN, thoroughN
-    "rows_cat_x_cat": (S.schema2("rows_cat_x_cat", A3, B3, weighted=True), (1, 2), (None,), 2, 3),
+    "rows_cat_x_cat": (S.schema2("rows_cat_x_cat", A3, B3, weighted=True), (1, 2), (None,), 2, 2),
+    # thorough only: one respondent more, all weights 1
+    "rows_cat_x_cat_unw": (S.schema2("rows_cat_x_cat_unw", A3, B3, weighted=True), (1,), (None,), 0, 3),
+    "cols_cat_x_cat_unw": (S.schema2("cols_cat_x_cat_unw", B3, A3, weighted=True), (1,), (None,), 0, 3),
+    "strand_mr_unw": (Schema("strand_mr_unw", [S.mr("m", 3)], [("mr", 0)], weighted=True), (1,), (None,), 0, 3),
     "rows_cat_x_cat_num": (S.schema2("rows_cat_x_cat_num", A3, B3, numeric=dict(NUM)), (1,), (1, 3), 2, 2),
     # numeric answers of both signs: sums cancel, so shares of a zero total are +-inf (a VALUE, not NaN)
     "rows_cat_x_cat_pm_num": (S.schema2("rows_cat_x_cat_pm_num", A3, B3, numeric={"measures": ["sum"], "valid_counts": True}),
@@ -79,9 +83,9 @@ BASES = {
                           (1,), (1, -1), 3, 4),
     "rows_cat_x_mr": (S.schema2("rows_cat_x_mr", A3, M2), (1,), (None,), 2, 2),
     "rows_mr_x_cat": (S.schema2("rows_mr_x_cat", M2, B3), (1,), (None,), 2, 2),
-    "cols_cat_x_cat": (S.schema2("cols_cat_x_cat", B3, A3, weighted=True), (1, 2), (None,), 2, 3),
+    "cols_cat_x_cat": (S.schema2("cols_cat_x_cat", B3, A3, weighted=True), (1, 2), (None,), 2, 2),
     "strand_cat": (Schema("strand_cat", [A3], [("cat", 0)], weighted=True), (1, 2), (None,), 3, 4),
-    "strand_mr": (Schema("strand_mr", [S.mr("m", 3)], [("mr", 0)], weighted=True), (1, 2), (None,), 2, 3),
+    "strand_mr": (Schema("strand_mr", [S.mr("m", 3)], [("mr", 0)], weighted=True), (1, 2), (None,), 2, 2),
     # deeper data on a two-item MR strand (items get different bases only with >= 4 respondents)
     "strand_mr2_deep": (Schema("strand_mr2_deep", [S.mr("m", 2)], [("mr", 0)]), (1,), (None,), 4, 5),
     "strand_cat_num": (Schema("strand_cat_num", [A3], [("cat", 0)], numeric=dict(NUM)), (1,), (None, 1, 3), 3, 4),
@@ -133,7 +137,7 @@ def _orders(name, tier):
         for m in ("col_percent", "count_unweighted", "row_percent", "col_index"):
             add({"type": "opposing_element", "element_id": 2, "measure": m})
         add({"type": "label"})
-    elif name == "cols_cat_x_cat":
+    elif name.startswith("cols_cat_x_cat"):
         for m in [x for x in ALL_MEASURES if x not in NUMERIC_KEYS]:
             add({"type": "opposing_element", "element_id": 2, "measure": m})
             add({"type": "opposing_insertion", "insertion_id": 7, "measure": m})
@@ -169,6 +173,8 @@ def spaces(tier):
     for name in sorted(BASES):
         sch, w, nums, q, t = BASES[name]
         n = q if tier == "quick" else t
+        if n == 0:
+            continue
         npf = len(PROFILES[tier][name])
         tq = 0 if tier == "quick" else 1
 
